@@ -1,5 +1,11 @@
 From Coq Require Extraction.
 From Coq Require Import ExtrOcamlBasic.
-From SA Require Import Base.Tok Mux.Runtime.
-Definition dispatch := dispatch_runtime.
+From Coq Require Import List String.
+Open Scope string_scope.
+From SA Require Import Base.Tok Mux.Runtime Mux.EndpointRun.
+Definition dispatch (ts : list tok) : list tok :=
+  match ts with
+  | op :: _ => if is_word "c15m" op then dispatch_c15m ts else dispatch_runtime ts
+  | nil => dispatch_runtime ts
+  end.
 Extraction "model.ml" dispatch.
